@@ -155,6 +155,28 @@ CLAIMED = {
              'numpy scalar types outside __REAL_TYPES__ raises and is not claimed.',
         technique='Lean 4 proof (linear-algebraic naturality over Lin) + wiring extraction from numpy + correspondence check',
         design_ref='DESIGN.md 4/C08'),
+    'C03': dict(
+        text='PARTIAL (strong duality is not proved). Theorems about a Lean model of sig_primal / sig_dual: the constrained coefficient '
+             'vector is that of (f - gamma) t^ell as a function of the real point, the modulator is positive, hence gamma <= f on X '
+             'whenever the SAGE constraint certifies nonnegativity (C01); the dual attains f(x) at the scaled moment vector of every x '
+             '(feasible by C02), so the dual value is <= f on X and the dual is feasible for nonempty X; weak duality given the cone '
+             'pairing. The built Problem\'s data (exponent rows, coefficient vector affine in gamma, normalisation and objective vectors) '
+             'are compared exactly with the model; both forms are solved and audited on sampled points of X.',
+        note='equality of primal and dual values when both are finite (strong duality) is observed per instance, not proved; ECOS '
+             'only in the audit.',
+        technique='Lean 4 proof (composition of C01/C02/C12/C13/C16 results, real evaluation) + model/implementation correspondence check',
+        design_ref='DESIGN.md 4/C03'),
+    'C04': dict(
+        text='PARTIAL (strong duality is not proved). Theorems about a Lean model of hierarchy_e_k, up_to_q_fold_cons and '
+             'make_sig_lagrangian: every folded constraint is a product of at most q inputs, and the Lagrangian identity '
+             'L = f - gamma - sum s_g g - sum z_h h holds as a function for EVERY assignment of gamma and the multiplier coefficients. '
+             'The real make_sig_lagrangian output (q-fold sets, alpha_hat, every coefficient of L as an affine form) is compared '
+             'exactly with the model; the identity is also checked on the real objects under random assignments; solved constrained '
+             'relaxations are audited against f at sampled feasible points and primal <= dual.',
+        note='the code collects folded constraints in a Python set (order unspecified): compared as sets; bound theorems for the '
+             'constrained builders reuse C03/C01/C02; strong duality observed only.',
+        technique='Lean 4 proof (signomial algebra with symbolic coefficients) + model/implementation correspondence check',
+        design_ref='DESIGN.md 4/C04'),
 }
 
 NOT_YET = 'check not built yet in this session (planned, see DESIGN.md section 6); not claimed until its theorems and correspondence exist'
